@@ -47,8 +47,11 @@ def one_case(args):
             defect = {"other/emoji_u1f600.svg": cli.simple_svg(7)}
         elif kind == "unparsable":
             defect = {"emoji_u1f6ff.svg": BAD_XML}
-        elif kind == "bad-colour":
-            defect = {"emoji_u1f6ff.svg": cli.simple_svg(3, color="notacolour")}
+        elif kind.startswith("bad-colour"):
+            # names that are no colour, and hex notations with a digit count SVG/CSS do not know (1, 2, 5, 7, 9 digits), non-hex digits
+            pool = ["notacolour", "#12", "#GGHHII", "#12345", "#F"]
+            bad = {"bad-colour-7": "#FF00000", "bad-colour-9": "#FF0000800"}.get(kind) or pool[(pos * 3 + nvalid) % len(pool)]
+            defect = {"emoji_u1f6ff.svg": cli.simple_svg(3, color=bad)}
         elif kind == "bad-spread":
             defect = {"emoji_u1f6ff.svg": GRAD.format(sm="bogus")}
         elif kind == "palette-conflict":
@@ -57,7 +60,7 @@ def one_case(args):
             extra_args = ["--bitmap_resolution", "300" if with_defect else "64"]
         if with_defect:
             files.update(defect)
-        elif kind in ("bad-colour", "bad-spread", "unparsable"):
+        elif kind.startswith("bad-colour") or kind in ("bad-spread", "unparsable"):
             files.update({"emoji_u1f6ff.svg": GRAD.format(sm="pad") if kind == "bad-spread" else cli.simple_svg(3)})
         elif kind == "palette-conflict":
             files.update({"emoji_u1f6ff.svg": cli.simple_svg(3, color="var(--color1, red)"), "emoji_u1f6fe.svg": cli.simple_svg(4, color="var(--color2, blue)")})
@@ -86,7 +89,7 @@ def one_case(args):
         shutil.rmtree(d, ignore_errors=True)
 
 
-KINDS = ["dup-glyph-name", "dup-file-name", "unparsable", "bad-colour", "bad-spread", "palette-conflict", "oversize-bitmap", "masters-disagree"]
+KINDS = ["dup-glyph-name", "dup-file-name", "unparsable", "bad-colour", "bad-colour-7", "bad-colour-9", "bad-spread", "palette-conflict", "oversize-bitmap", "masters-disagree"]
 
 
 def fmt_for(kind, rng):
